@@ -7,6 +7,7 @@ Helper lemmas for C20 (Props/C20.lean): the straight-line effect of every piece 
 -/
 import ChibiVerif.Model.Codegen
 import ChibiVerif.Model.Effect
+import ChibiVerif.Gen.CastTableGen
 
 namespace ChibiVerif.Lemmas.C20
 open ChibiVerif ChibiVerif.Codegen ChibiVerif.Effect ChibiVerif.Asm ChibiVerif.Ast
@@ -135,50 +136,6 @@ theorem Sem_regDx (sz : Int) : Sem (regDx sz) 0 0 0 := by
   repeat' split
   all_goals first | exact Sem_pure _ | exact Sem_fail _
 
--- from here on `Sem` is opaque to `intro`/`apply`: the judgment is only built with the rules above
-attribute [irreducible] Sem
-
-/-! ### tactic: compose a `do` block -/
-
-/-- solve `Sem m ?r ?x ?d` for a sequential block whose leaves are known -/
-syntax "sem_steps" : tactic
-macro_rules
-  | `(tactic| sem_steps) => `(tactic| repeat (first
-      | exact Sem_pure _
-      | exact Sem_emit rfl
-      | exact Sem_addDepth _
-      | exact Sem_getDepth
-      | exact Sem_count
-      | exact Sem_fail _
-      | exact Sem_needTy _ _
-      | exact Sem_needVar _ _
-      | exact Sem_liftE _
-      | exact Sem_argreg _ _
-      | exact Sem_regAx _
-      | exact Sem_regDx _
-      | assumption
-      | apply Sem_bind
-      | intro _))
-
-/-- prove `Sem m r x d` for concrete `r x d`: compose, then check the sums -/
-syntax "sem_prove" : tactic
-macro_rules
-  | `(tactic| sem_prove) => `(tactic|
-      (apply Sem.cast
-       case h => sem_steps
-       all_goals (first | rfl | omega | (simp; done) | (simp; omega))))
-
-/-! ### push / pop / discard / loc -/
-
-theorem Sem_push : Sem push (-8) 0 1 := by unfold push; sem_prove
-theorem Sem_pop (a : String) (h : a ≠ "%rsp") : Sem (pop a) 8 0 (-1) := by
-  unfold pop
-  have : lineDelta (ins1 "pop" (.r a)) = some ⟨8, 0⟩ := by
-    simp [lineDelta, ins1, insDelta, dstIsRsp, isRsp, h]
-  refine Sem.cast (Sem_bind (Sem_emit this) (fun _ => Sem_addDepth _)) ?_ ?_ ?_ <;> rfl
-theorem Sem_pushf : Sem pushf (-8) 0 1 := by unfold pushf; sem_prove
-theorem Sem_popf (n : Nat) : Sem (popf n) 8 0 (-1) := by unfold popf; sem_prove
-
 def isLD (t : Option Ty) : Bool :=
   match t with
   | some t => t.kind == .ldouble
@@ -187,20 +144,71 @@ def isLD (t : Option Ty) : Bool :=
 /-- +1 for a long double, 0 for every other type -/
 def xOf (t : Option Ty) : Int := if isLD t then 1 else 0
 
-theorem Sem_discard (t : Option Ty) : Sem (Codegen.discard t) 0 (-(xOf t)) 0 := by
-  unfold Codegen.discard xOf isLD
-  cases t with
-  | none => simpa using Sem_pure ()
-  | some t =>
-    by_cases h : t.kind = .ldouble
-    · simp only [h, beq_self_eq_true, if_true]; sem_prove
-    · have : (t.kind == TyKind.ldouble) = false := by simpa using h
-      simp only [this]; simpa using Sem_pure ()
+/-! ### `node->ty` of each constructor -/
 
-theorem Sem_loc (i : NInfo) : Sem (loc i) 0 0 0 := by unfold loc; exact Sem_emit rfl
+@[simp] theorem ty?_nullExpr : (Node.nullExpr i).ty? = i.ty := rfl
+@[simp] theorem ty?_binop : (Node.binop i op lhs rhs).ty? = i.ty := rfl
+@[simp] theorem ty?_neg : (Node.neg i lhs).ty? = i.ty := rfl
+@[simp] theorem ty?_assign : (Node.assign i lhs rhs).ty? = i.ty := rfl
+@[simp] theorem ty?_cond : (Node.cond i c t e).ty? = i.ty := rfl
+@[simp] theorem ty?_comma : (Node.comma i lhs rhs).ty? = i.ty := rfl
+@[simp] theorem ty?_member : (Node.member i lhs mem).ty? = i.ty := rfl
+@[simp] theorem ty?_addr : (Node.addr i lhs).ty? = i.ty := rfl
+@[simp] theorem ty?_deref : (Node.deref i lhs).ty? = i.ty := rfl
+@[simp] theorem ty?_not : (Node.not i lhs).ty? = i.ty := rfl
+@[simp] theorem ty?_bitnot : (Node.bitnot i lhs).ty? = i.ty := rfl
+@[simp] theorem ty?_logand : (Node.logand i lhs rhs).ty? = i.ty := rfl
+@[simp] theorem ty?_logor : (Node.logor i lhs rhs).ty? = i.ty := rfl
+@[simp] theorem ty?_ret : (Node.ret i lhs).ty? = i.ty := rfl
+@[simp] theorem ty?_if_ : (Node.if_ i c t e).ty? = i.ty := rfl
+@[simp] theorem ty?_for_ : (Node.for_ i a b c d e f).ty? = i.ty := rfl
+@[simp] theorem ty?_do_ : (Node.do_ i a b c d).ty? = i.ty := rfl
+@[simp] theorem ty?_switch_ : (Node.switch_ i a b c d e).ty? = i.ty := rfl
+@[simp] theorem ty?_case_ : (Node.case_ i a b c d).ty? = i.ty := rfl
+@[simp] theorem ty?_block : (Node.block i b).ty? = i.ty := rfl
+@[simp] theorem ty?_goto_ : (Node.goto_ i a b).ty? = i.ty := rfl
+@[simp] theorem ty?_gotoExpr : (Node.gotoExpr i lhs).ty? = i.ty := rfl
+@[simp] theorem ty?_label : (Node.label i a b c).ty? = i.ty := rfl
+@[simp] theorem ty?_labelVal : (Node.labelVal i a b).ty? = i.ty := rfl
+@[simp] theorem ty?_funcall : (Node.funcall i a b c d).ty? = i.ty := rfl
+@[simp] theorem ty?_exprStmt : (Node.exprStmt i lhs).ty? = i.ty := rfl
+@[simp] theorem ty?_stmtExpr : (Node.stmtExpr i b).ty? = i.ty := rfl
+@[simp] theorem ty?_var : (Node.var i v).ty? = i.ty := rfl
+@[simp] theorem ty?_vlaPtr : (Node.vlaPtr i v).ty? = i.ty := rfl
+@[simp] theorem ty?_num : (Node.num i a b c d e).ty? = i.ty := rfl
+@[simp] theorem ty?_cast : (Node.cast i lhs).ty? = i.ty := rfl
+@[simp] theorem ty?_memzero : (Node.memzero i v).ty? = i.ty := rfl
+@[simp] theorem ty?_asm_ : (Node.asm_ i s).ty? = i.ty := rfl
+@[simp] theorem ty?_cas : (Node.cas i a b c).ty? = i.ty := rfl
+@[simp] theorem ty?_exch : (Node.exch i lhs rhs).ty? = i.ty := rfl
+@[simp] theorem ty?_null : Node.null.ty? = none := rfl
 
+theorem xOf_eq_of_isLD {a b : Option Ty} (h : isLD a = isLD b) : xOf a = xOf b := by simp [xOf, h]
+theorem xOf_zero {a : Option Ty} (h : isLD a = false) : xOf a = 0 := by simp [xOf, h]
+theorem xOf_one {a : Option Ty} (h : isLD a = true) : xOf a = 1 := by simp [xOf, h]
 
-/-! ### branching helpers -/
+/-- the comparison operators (their result is an `int`, whatever the operands are) -/
+def isCmp : BinOp → Bool
+  | .eq | .ne | .lt | .le => true
+  | _ => false
+
+theorem Sem_nullDeref (w : String) : Sem (nullDeref w : M α) r x d := Sem_fail _
+
+/-- first action carries the effect, the rest has none -/
+theorem Sem_bind_l {m : M α} {f : α → M β} (h1 : Sem m r x d) (h2 : ∀ a, Sem (f a) 0 0 0) :
+    Sem (m >>= f) r x d :=
+  (Sem_bind h1 h2).cast (by omega) (by omega) (by omega)
+
+-- from here on `Sem` is opaque to `intro`/`apply`: the judgment is only built with the rules above
+attribute [irreducible] Sem
+
+/-! ### tactic: derive `Sem m r x d` top-down -/
+
+/-- top-down sequencing: the first action is a leaf with a known effect, the continuation must
+    account for the remainder of the target -/
+theorem Sem_bind_td {m : M α} {f : α → M β} {r x d r1 x1 d1 : Int} (h1 : Sem m r1 x1 d1)
+    (h2 : ∀ a, Sem (f a) (r - r1) (x - x1) (d - d1)) : Sem (m >>= f) r x d :=
+  (Sem_bind h1 h2).cast (by omega) (by omega) (by omega)
 
 theorem Sem_bind0 {m : M α} {f : α → M β} (h1 : Sem m 0 0 0) (h2 : ∀ a, Sem (f a) r x d) :
     Sem (m >>= f) r x d :=
@@ -223,52 +231,87 @@ theorem Sem_needVar_bind {w : String} {v? : Option Var} {f : Var → M β}
     (h : ∀ v, v? = some v → Sem (f v) r x d) : Sem (needVar w v? >>= f) r x d := by
   refine (Sem_bind' (Sem_needVar w v?) (fun a s s' l hm => h a (needVar_eq hm))).cast ?_ ?_ ?_ <;> omega
 
-/-- zero-effect actions whose result the rest does not depend on (for the effect) -/
-syntax "sem_zero" : tactic
+/-- a leaf: an action whose effect is known (rules are added to this tactic as lemmas are proved) -/
+syntax "sem_leaf" : tactic
 macro_rules
-  | `(tactic| sem_zero) => `(tactic| first
+  | `(tactic| sem_leaf) => `(tactic| first
+      | exact Sem_pure _
+      | exact Sem_emit rfl
+      | exact Sem_addDepth _
+      | exact Sem_getDepth
+      | exact Sem_count
       | exact Sem_needTy _ _
       | exact Sem_needVar _ _
       | exact Sem_liftE _
-      | exact Sem_getDepth
-      | exact Sem_count
       | exact Sem_argreg _ _
       | exact Sem_regAx _
       | exact Sem_regDx _
-      | exact Sem_pure _)
+      | assumption)
 
-/-- peel zero-effect prefixes and split every `if`/`match`, then compose each branch -/
-syntax "sem_auto" : tactic
+/-- close the arithmetic side conditions -/
+syntax "sem_arith" : tactic
 macro_rules
-  | `(tactic| sem_auto) => `(tactic|
-      ((repeat' (first
-          | (refine Sem_bind0 (by sem_zero) (fun _ => ?_))
-          | dsimp only
-          | split))
-       all_goals sem_prove))
+  | `(tactic| sem_arith) => `(tactic| first
+      | rfl | omega | (simp; done) | (simp; omega)
+      | (simp [xOf, isLD, isCmp, *]; done) | (simp [xOf, isLD, isCmp, *]; omega))
+
+/-- derive `Sem m r x d`: peel the `do` block action by action, split every `if`/`match` -/
+syntax "sem" : tactic
+macro_rules
+  | `(tactic| sem) => `(tactic| repeat' (first
+      | exact Sem_fail _
+      | exact Sem_nullDeref _
+      | (refine Sem.cast (by sem_leaf) ?_ ?_ ?_ <;> sem_arith)
+      | (refine Sem_bind_td (by sem_leaf) (fun _ => ?_))
+      | dsimp only
+      | split
+      | (exfalso; simp_all; done)))
+
+/-! ### push / pop / discard / loc -/
+
+theorem Sem_push : Sem push (-8) 0 1 := by unfold push; sem
+theorem Sem_pop (a : String) (h : a ≠ "%rsp") : Sem (pop a) 8 0 (-1) := by
+  unfold pop
+  have : lineDelta (ins1 "pop" (.r a)) = some ⟨8, 0⟩ := by
+    simp [lineDelta, ins1, insDelta, dstIsRsp, isRsp, h]
+  have := Sem_emit this
+  sem
+theorem Sem_pushf : Sem pushf (-8) 0 1 := by unfold pushf; sem
+theorem Sem_popf (n : Nat) : Sem (popf n) 8 0 (-1) := by unfold popf; sem
+
+theorem xOf_some (t : Ty) : xOf (some t) = if t.kind = .ldouble then 1 else 0 := by
+  simp [xOf, isLD]
+
+theorem Sem_discard (t : Option Ty) : Sem (Codegen.discard t) 0 (-(xOf t)) 0 := by
+  unfold Codegen.discard
+  cases t with
+  | none => exact (Sem_pure ()).cast rfl (by simp [xOf, isLD]) rfl
+  | some t => rw [xOf_some]; sem
+
+theorem Sem_loc (i : NInfo) : Sem (loc i) 0 0 0 := by unfold loc; exact Sem_emit rfl
+
+macro_rules
+  | `(tactic| sem_leaf) => `(tactic| first
+      | exact Sem_push | exact Sem_pushf | exact Sem_popf _ | exact Sem_pop _ (by decide)
+      | exact Sem_discard _ | exact Sem_loc _)
 
 /-! ### gen_addr leaf, load, store, cmp_zero -/
 
 theorem Sem_addrVar (env : Env) (i : NInfo) (v : Option Var) : Sem (addrVar env i v) 0 0 0 := by
   unfold addrVar
-  sem_auto
+  sem
 
 theorem Sem_addrMember {a : M Unit} (h : Sem a 0 0 0) (mem : Option Member) :
     Sem (addrMember a mem) 0 0 0 := by
   unfold addrMember
-  cases mem with
-  | none => exact Sem_bind0 h (fun _ => Sem_fail _)
-  | some m => exact Sem_bind0 h (fun _ => Sem_emit rfl)
-
-theorem xOf_some (t : Ty) : xOf (some t) = if t.kind = .ldouble then 1 else 0 := by
-  simp [xOf, isLD]
+  sem
 
 theorem Sem_load (ty? : Option Ty) : Sem (load ty?) 0 (xOf ty?) 0 := by
   unfold load
   refine Sem_needTy_bind fun ty hty => ?_
   subst hty
   rw [xOf_some]
-  cases hk : ty.kind <;> simp only [reduceCtorEq, if_false, if_true] <;> sem_auto
+  sem
 
 theorem delta_copyBytes (src tmp dst : String) (hs : tmp ≠ "%rsp") (i n : Nat) :
     delta (copyBytes src tmp dst i n) = some ⟨0, 0⟩ := by
@@ -280,27 +323,148 @@ theorem delta_copyBytes (src tmp dst : String) (hs : tmp ≠ "%rsp") (i n : Nat)
     have h2 : lineDelta (ins2 "mov" (.r tmp) (.m (↑i) dst)) = some ⟨0, 0⟩ := by rfl
     simp [copyBytes, delta, h1, h2, ih]
 
+theorem Sem_copyBytes (src tmp dst : String) (hs : tmp ≠ "%rsp") (i n : Nat) :
+    Sem (emits (copyBytes src tmp dst i n)) 0 0 0 :=
+  Sem_emits (delta_copyBytes src tmp dst hs i n)
+
+macro_rules
+  | `(tactic| sem_leaf) => `(tactic| exact Sem_copyBytes _ _ _ (by decide) _ _)
+
 theorem Sem_store (ty? : Option Ty) : Sem (store ty?) 8 0 (-1) := by
   unfold store
-  refine (Sem_bind (Sem_pop "%rdi" (by decide)) (fun _ => ?_)).cast (r := 8 + 0) (x := 0 + 0) (d := -1 + 0)
-    (by omega) (by omega) (by omega)
-  refine Sem_needTy_bind fun ty _ => ?_
-  cases hk : ty.kind <;> simp only <;>
-    first
-    | exact Sem_emits (delta_copyBytes _ _ _ (by decide) _ _)
-    | sem_auto
+  sem
+
+theorem Sem_cmpZeroTail : Sem (emits cmpZeroTail) 0 0 0 := Sem_emits rfl
 
 theorem Sem_cmpZero (ty? : Option Ty) : Sem (cmpZero ty?) 0 (-(xOf ty?)) 0 := by
   unfold cmpZero
   refine Sem_needTy_bind fun ty hty => ?_
   subst hty
   rw [xOf_some]
-  have ht : delta cmpZeroTail = some ⟨0, 0⟩ := by rfl
-  cases hk : ty.kind <;> simp only [reduceCtorEq, if_false, if_true] <;>
-    first
-    | (apply Sem.cast
-       case h => repeat (first | exact Sem_emit rfl | exact Sem_emits ht | apply Sem_bind | intro _)
-       all_goals (first | rfl | omega | (simp; done)))
-    | sem_auto
+  have := Sem_cmpZeroTail
+  sem
+
+macro_rules
+  | `(tactic| sem_leaf) => `(tactic| first
+      | exact Sem_addrVar _ _ _ | exact Sem_load _ | exact Sem_store _ | exact Sem_cmpZero _)
+
+/-! ### cast: the whole table -/
+
+/-- 1 for the type id of long double -/
+def f80 (t : Nat) : Int := if t = Gen.CastTable.F80 then 1 else 0
+
+/-- every cell of `cast_table` is straight-line, leaves %rsp alone, and changes the x87 depth by
+    exactly (to is long double) − (from is long double) -/
+theorem castTable_delta : ∀ t1, t1 < 11 → ∀ t2, t2 < 11 →
+    (match Gen.CastTable.castCell t1 t2 with
+     | some l => lineDelta l
+     | none => some H.zero) = some ⟨0, f80 t2 - f80 t1⟩ := by
+  decide
+
+theorem getTypeId_lt (k : TyKind) (u : Bool) : Gen.CastTable.getTypeId k u < 11 := by
+  cases k <;> cases u <;> decide
+
+theorem f80_getTypeId (k : TyKind) (u : Bool) :
+    f80 (Gen.CastTable.getTypeId k u) = if k = .ldouble then 1 else 0 := by
+  cases k <;> cases u <;> decide
+
+theorem Sem_cast (from? to? : Option Ty) : Sem (Codegen.cast from? to?) 0 (xOf to? - xOf from?) 0 := by
+  unfold Codegen.cast
+  refine Sem_needTy_bind fun to hto => ?_
+  subst hto
+  rw [xOf_some]
+  by_cases hv : to.kind = .void
+  · simp only [hv, beq_self_eq_true, if_true, reduceCtorEq, if_false]
+    exact (Sem_discard from?).cast rfl (by omega) rfl
+  · have hv' : (to.kind == TyKind.void) = false := by simpa using hv
+    simp only [hv']
+    by_cases hb : to.kind = .bool
+    · simp only [hb, beq_self_eq_true, if_true, reduceCtorEq, if_false]
+      sem
+    · have hb' : (to.kind == TyKind.bool) = false := by simpa using hb
+      simp only [hb', Bool.false_eq_true, if_false]
+      refine Sem_needTy_bind fun fr hfr => ?_
+      subst hfr
+      rw [xOf_some]
+      have hcell := castTable_delta _ (getTypeId_lt fr.kind fr.isUnsigned) _ (getTypeId_lt to.kind to.isUnsigned)
+      rw [f80_getTypeId, f80_getTypeId] at hcell
+      split
+      · rename_i l hl
+        rw [hl] at hcell
+        exact Sem_emit hcell
+      · rename_i hl
+        rw [hl] at hcell
+        simp only [H.zero, Option.some.injEq, H.mk.injEq] at hcell
+        exact (Sem_pure ()).cast rfl hcell.2 rfl
+
+macro_rules
+  | `(tactic| sem_leaf) => `(tactic| exact Sem_cast _ _)
+
+/-! ### gen_expr arms without control flow -/
+
+theorem Sem_numArm (i : NInfo) (val : Int) (a b c d : Nat) : Sem (numArm i val a b c d) 0 (xOf i.ty) 0 := by
+  unfold numArm
+  refine Sem_needTy_bind fun ty hty => ?_
+  rw [hty, xOf_some]
+  sem
+
+theorem Sem_negArm (i : NInfo) {lhs : M Unit} {xl : Int} (h : Sem lhs 0 xl 0) :
+    Sem (negArm i lhs) 0 xl 0 := by
+  unfold negArm
+  sem
+
+theorem Sem_bitfieldExtract (env : Env) (mem : Member) : Sem (bitfieldExtract env mem) 0 0 0 := by
+  unfold bitfieldExtract
+  sem
+
+macro_rules
+  | `(tactic| sem_leaf) => `(tactic| exact Sem_bitfieldExtract _ _)
+
+theorem Sem_memberArm (i : NInfo) {a : M Unit} (h : Sem a 0 0 0) (mem : Option Member) (env : Env) :
+    Sem (memberArm i a mem env) 0 (xOf i.ty) 0 := by
+  unfold memberArm
+  have h1 := Sem_addrMember h mem
+  sem
+
+/-- x87 effect of the bit-field path of an assignment: `load(mem->ty)` -/
+def bfX (env : Env) (bf : Option Member) : Int :=
+  match bf with
+  | some m => xOf (env.ty? m.ty)
+  | none => 0
+
+theorem Sem_assignArm (env : Env) (i : NInfo) (bf : Option Member) {a r : M Unit} {xr : Int}
+    (ha : Sem a 0 0 0) (hr : Sem r 0 xr 0) : Sem (assignArm env i bf a r) 0 (xr + bfX env bf) 0 := by
+  unfold assignArm bfX
+  sem
+
+theorem Sem_notArm {lhs : M Unit} (lty : Option Ty) (h : Sem lhs 0 (xOf lty) 0) :
+    Sem (notArm lhs lty) 0 0 0 := by
+  unfold notArm
+  sem
+
+theorem Sem_memzeroArm (env : Env) (v : Option Var) : Sem (memzeroArm env v) 0 0 0 := by
+  unfold memzeroArm
+  sem
+
+theorem Sem_exchArm (env : Env) {lhs rhs : M Unit} (lty : Option Ty) {xl xr : Int}
+    (hl : Sem lhs 0 xl 0) (hr : Sem rhs 0 xr 0) : Sem (exchArm env lhs lty rhs) 0 (xl + xr) 0 := by
+  unfold exchArm
+  sem
+
+
+theorem Sem_binopFlo (sz : String) (hsz : sz = "ss" ∨ sz = "sd") (op : BinOp) {lhs rhs : M Unit}
+    (hl : Sem lhs 0 0 0) (hr : Sem rhs 0 0 0) : Sem (binopFlo sz op lhs rhs) 0 0 0 := by
+  unfold binopFlo
+  rcases hsz with rfl | rfl <;> cases op <;> sem
+
+theorem Sem_binopLd (op : BinOp) {lhs rhs : M Unit} (hl : Sem lhs 0 1 0) (hr : Sem rhs 0 1 0) :
+    Sem (binopLd op lhs rhs) 0 (if isCmp op then 0 else 1) 0 := by
+  unfold binopLd
+  cases op <;> sem
+
+theorem Sem_binopInt (i : NInfo) (op : BinOp) (lty : Ty) {lhs rhs : M Unit}
+    (hl : Sem lhs 0 0 0) (hr : Sem rhs 0 0 0) : Sem (binopInt i op lty lhs rhs) 0 0 0 := by
+  unfold binopInt
+  cases op <;> sem
 
 end ChibiVerif.Lemmas.C20
